@@ -11,8 +11,8 @@ import (
 	"sync"
 	"sync/atomic"
 
-	rpc "github.com/libp2p/go-libp2p-gorpc"
 	"github.com/ipfs/ipfs-cluster/version"
+	rpc "github.com/libp2p/go-libp2p-gorpc"
 )
 
 // Call is one recorded RPC.
